@@ -41,7 +41,7 @@ def _histories(draw):
         ops.append([draw(st.sampled_from(OPS)), draw(st.integers(0, 2 ** 16)), draw(st.integers(0, 2 ** 16)),
                     draw(st.integers(0, 2 ** 16))])
     return {"v0": draw(st.sampled_from([1, 1, 2, 41, 2 ** 31 - 1, 2 ** 53, 2 ** 63 - 2])), "mask0": draw(st.integers(1, 2 ** NPOOL - 1)),
-            "thr0": draw(st.integers(0, 5)), "ops": ops}
+            "thr0": draw(st.integers(0, 5)), "ops": ops, "inplace_client": draw(st.booleans())}
 
 
 def _root(version, key_seeds, thr, extra=None):
@@ -184,7 +184,12 @@ def check_history(case):
                         RV.count_bounds(offer, r["pubkeys"], True)[0] < r["threshold"]:
                     raise Violation("step %s: accepted link is not a single version increment signed by the previous link's "
                                     "root threshold" % step, bucket="chain link invalid")
-                trusted = copy.deepcopy(offer)
+                if case.get("inplace_client"):
+                    # a client that keeps ONE dict for its trusted root and overwrites its content
+                    trusted.clear()
+                    trusted.update(copy.deepcopy(offer))
+                else:
+                    trusted = copy.deepcopy(offer)
                 chain.append(copy.deepcopy(offer))
                 version = offer["signed"]["version"]
                 pubs_now = offer["signed"]["delegations"]["root"]["pubkeys"]
@@ -199,7 +204,7 @@ def check_history(case):
                 rejected_hostile += 1
     finally:
         shutil.rmtree(d, ignore_errors=True)
-    labs |= {"accepted>=2" if accepted >= 2 else "accepted<2", "revocation" if revoked else "no-revocation"}
+    labs |= {"inplace-client" if case.get("inplace_client") else "rebinding-client", "accepted>=2" if accepted >= 2 else "accepted<2", "revocation" if revoked else "no-revocation"}
     return {"nontrivial": accepted >= 2 and rejected_hostile >= 1, "labels": sorted(labs),
             "count": {"steps": len(case["ops"]), "accepted": accepted, "hostile_rejected": rejected_hostile}}
 
@@ -219,17 +224,34 @@ def _config_cases(draw):
     calls = [["verify_root", roots[0], roots[1]], ["verify_root", roots[1], roots[2]], ["verify_root", roots[0], roots[2]],
              ["verify_root", roots[0], adv], ["verify_root", roots[0], topped], ["verify_root", roots[1], roots[0]],
              ["verify_root", roots[1], roots[1]]]
-    return {"calls": calls, "config": draw(configrun.configs)}
+    return {"calls": calls, "config": draw(configrun.configs), "bad_stdout": draw(st.sampled_from([None, "closed", "broken"]))}
 
 
 def check_config(case):
+    if case.get("bad_stdout"):
+        # stdout that raises (closed: ValueError, dead pipe: OSError): diagnostics may fail, so only "never a wrong accept" is demanded
+        v2, _, _ = cfgunit.config_probe(case["calls"], "sound", dict(case["config"], stdout=case["bad_stdout"]))
+        if v2[3] == "accept" or v2[4] == "accept":
+            raise Violation("an adversarial offer is accepted when stdout is %s" % case["bad_stdout"], bucket="adversary changed trusted root")
     verdicts, labels, count = cfgunit.config_probe(case["calls"], "iff", case["config"])
     if verdicts[3] == "accept" or verdicts[4] == "accept":
         raise Violation("an adversarial offer is accepted under configuration %r" % case["config"], bucket="adversary changed trusted root")
     return {"nontrivial": verdicts[:2] == ["accept", "accept"], "labels": labels, "count": count}
 
 
+def _interrupted_sweep_cases():
+    from props import C12
+    return C12._sweep_cases().map(lambda c: dict(c, entry='verify_root', kind=c["kind"] if c["kind"] in ['invalid', 'unauthorized', 'valid'] else 'invalid'))
+
+
+def check_interrupted_sweep(case):
+    from props import C12
+    return C12.check_fault_sweep(case)
+
+
 UNITS = [
+    Unit("interrupted_sweep", check_interrupted_sweep, strategy=_interrupted_sweep_cases, quick=18, thorough=500, shards_quick=3,
+         doc="every line event and every C-level call of one verify_root interrupted once on a fresh envelope, each followed by a normal retry of the same envelope"),
     Unit("config", check_config, strategy=_config_cases, quick=24, thorough=400, shards_quick=8, shrink=False,
          doc="an honest three-link chain plus adversarial / replayed / rolled-back offers in fresh interpreters under drawn "
              "configurations and discovered environment variables"),
